@@ -12,7 +12,7 @@ open CtyModel.Msgpack
 * `d17.unmarshal <item> <ty>` → `ok <value>` | `err` | `panic` | `unmodelled`
 * `d17.allocfit <item> <ty> <bytes> <measured alloc> <ok 0|1>` → `fit` iff `wireSize item ≤ (1 + extDepth item)·bytes` and (when the real
   decoder returned a value) `allocCost ≤ measured alloc`; else the two numbers
-* `d17.jsonimplied <tbl> <json>` → `json.ImpliedType` with the nesting limit of the source (`Generated.jsonMaxImpliedTypeDepth`)
+* `d17.jsonimplied <tbl> <json>` → `json.ImpliedType` with the nesting limit of the source (`Generated.jsonImpliedTypeDepthLimit`)
 * `d17.cutfit <cut> <ty> <measured alloc> <bytes per slot>` → `fit` iff `perSlot·allocCostCut ≤ measured ≤ 256·allocCostCut + 16384`
   (documents cut off after a length header: the case `allocHint` is for)
 * `d17.alloc <item> <ty>` → `<slots> <wireSize>`: element slots requested by the `make(` calls of the decoder on the
@@ -52,7 +52,7 @@ def handleD17 : Handler := fun op args =>
   | "d17.jsonimplied", [tbl, j] => do
     let env ← decEnv tbl
     let j ← Json.ofSexp j
-    pure (resTag (fun t => toString t.toSexp) (D17.jsonImpliedTop env Generated.jsonMaxImpliedTypeDepth j))
+    pure (resTag (fun t => toString t.toSexp) (D17.jsonImpliedTop env Generated.jsonImpliedTypeDepthLimit j))
   | "d17.cutfit", [c, t, a, .atom perSlot] => do
     -- the allocation cost model on a document cut off after a length header, against the measured allocation:
     -- perSlot·slots ≤ measured ≤ 256·slots + 16384
